@@ -5,7 +5,7 @@
 From Coq Require Import List String ZArith NArith Bool.
 Import ListNotations.
 From Anthem Require Import Base.ISet Base.Fresh Syntax.Fol Sem.Domain Sem.Sat Model.Subst Model.Problem Model.Outline
-  Model.External Proofs.SemBase Proofs.DecomposeOk Proofs.StrongOk Proofs.ExternalOk Proofs.OutlineOk Proofs.OutlineSound.
+  Model.External Proofs.SemBase Proofs.DecomposeOk Proofs.StrongOk Proofs.ExternalOk Proofs.OutlineOk Proofs.OutlineSound Proofs.TasksClosed.
 Open Scope string_scope.
 
 (* the substitution lemma of C17, in the shape the `subst` cluster proves it; it is the only
@@ -23,6 +23,13 @@ Theorem C13_induction :
     inductive_lemma f = Ok (base, step) -> cvalid FI I base -> cvalid FI I step -> cvalid FI I f.
 Proof. exact induction_sound. Qed.
 Print Assumptions C13_induction.
+
+(* ... with the substitution lemma discharged by Proofs/SubstOk.substitute_sem (C17) *)
+Theorem C13_induction_closed :
+  forall (f base step : formula) (FI : fint) (I : pint),
+    inductive_lemma f = Ok (base, step) -> cvalid FI I base -> cvalid FI I step -> cvalid FI I f.
+Proof. exact induction_sound_closed. Qed.
+Print Assumptions C13_induction_closed.
 
 (* C13_definition (shape): an accepted definition is  forall Xs (p(ts) <-> F)  with Xs duplicate-free,
    every argument of p a variable of Xs (and conversely), p not among the taken predicates, F closed
@@ -69,6 +76,16 @@ Theorem C13_accepted :
     Forall (fun g => lemma_sound g /\ lemma_roles g) (backward_lemmas o).
 Proof. exact from_specification_ok. Qed.
 Print Assumptions C13_accepted.
+
+Theorem C13_accepted_closed :
+  forall (s : specification) (taken : list pred) (m : placeholders) (o : proof_outline) (ws : list po_warning),
+    from_specification s taken m = Ok (o, ws) ->
+    def_chain taken (map an_formula (forward_definitions o)) /\
+    def_chain taken (map an_formula (backward_definitions o)) /\
+    Forall (fun g => lemma_sound g /\ lemma_roles g) (forward_lemmas o) /\
+    Forall (fun g => lemma_sound g /\ lemma_roles g) (backward_lemmas o).
+Proof. exact from_specification_ok_closed. Qed.
+Print Assumptions C13_accepted_closed.
 
 (* C13_order: the problems emitted for the lemmas of a direction are exactly: for the k-th lemma g
    and its j-th conjecture c, the problem named <prefix>_outline_k_j whose axioms are the initial
@@ -117,21 +134,20 @@ Proof. exact accepted_strictly_fresh. Qed.
 Print Assumptions C13_fresh_outside_F12.
 
 (* witness of the known class F12:  lemma: forall X (aux(X) -> in(X)).  definition: forall X (aux(X) <-> in(X)).
-   is in the class and is not strictly fresh (that anthem accepts it is established on the real code
-   by the known-finding replay of the check; pred_dec is opaque inside Coq) *)
+   is accepted, is in the class, and is not strictly fresh *)
 Example F12_witness :
   let X := mkvar "X" SGeneral in
   let lemma := mkannot RLemma DUniversal "l"
                  (FQ QForall [X] (FBin CImp (FAtomic (AAtom "aux" [GVar "X"])) (FAtomic (AAtom "in" [GVar "X"])))) in
   let def := mkannot RDefinition DUniversal "d"
                (FQ QForall [X] (FBin CIff (FAtomic (AAtom "aux" [GVar "X"])) (FAtomic (AAtom "in" [GVar "X"])))) in
+  (exists o ws, from_specification [lemma; def] [mkpred "in" 1] [] = Ok (o, ws)) /\
   ~ F12_free [] [lemma; def] [] /\ ~ strictly_fresh [] [lemma; def] [mkpred "in" 1].
 Proof.
-  cbv zeta. split.
-  - cbn. intros [H _]. apply (H (mkpred "aux" 1) eq_refl).
-    apply (in_iset_insert pred_dec). left. left. reflexivity.
-  - cbn. intros [_ [H _]]. apply (H (mkpred "aux" 1) eq_refl).
-    right. apply (in_iset_insert pred_dec). left. left. reflexivity.
+  cbv zeta. split; [|split].
+  - eexists. eexists. vm_compute. reflexivity.
+  - cbn. intros [H _]. apply (H (mkpred "aux" 1) eq_refl). cbn. auto.
+  - cbn. intros [_ [H _]]. apply (H (mkpred "aux" 1) eq_refl). cbn. auto.
 Qed.
 
 (* non-vacuity of C13_induction's premise shape: the base/step construction on a concrete lemma *)
